@@ -168,7 +168,6 @@ def build_case(mod, meta, symbolic=True, concrete_inputs=None, rm_mode='sym'):
     case.stats = {'paths': len(finals), 'steps': ex.total_steps, 'intrinsics': sorted(ex.intrinsics_used),
                   'callees': sorted(ex.called), 'feasibility_queries': ex.feas_queries}
     exp = o.oracle(T, *args_or, **kw)
-    RT = {'v': T, 'w': S, 'x': S, 's': T}.get(o.ret)
     rty = fn.ret
     pcs = []
     for fi, f in enumerate(finals):
@@ -184,63 +183,70 @@ def build_case(mod, meta, symbolic=True, concrete_inputs=None, rm_mode='sym'):
             case.obligations.append({'kind': 'fpenv:mxcsr-changed', 'group': tag + ':fpenv', 'desc': 'MXCSR control bits differ at return',
                                      'formula': b_and(pc, sym.ne(sym.and_(f.mxcsr, ctl, 32), sym.and_(st.extra['mxcsr0'], ctl, 32), 32))})
         if f.ret is None:
-            if rty.kind != 'void':
-                continue
-        # result
-        if o.ret in 'vwxs':
-            n = 1 if o.ret == 's' else RT.n
-            got, pp = unpack_lanes(f.ret, rty, RT.bits, n)
-            explist = exp if isinstance(exp, list) and o.ret != 's' else [exp]
-            for i in range(n):
-                lp = o.lane_pre(T, i, *args_or) if o.lane_pre else True
-                case.obligations.append({'kind': 'result', 'group': tag + ':result', 'lane': i,
-                                         'formula': b_and(pc, lp, mismatch(o.cmp, RT, got[i], explist[i], RT.bits)),
-                                         'desc': 'lane %d of %s' % (i, meta['name']), 'got': got[i], 'exp': explist[i]})
-                case.obligations.append({'kind': 'ub:poison-returned', 'group': tag + ':ub', 'lane': i,
-                                         'formula': b_and(pc, lp, pp[i]), 'desc': 'lane %d is poison' % i})
-        elif o.ret == 'm':
-            bools = exp
-            if rty.kind == 'vec' and rty.lbits() > 1:
-                got, pp = unpack_lanes(f.ret, rty, T.bits, T.n)
-                for i in range(T.n):
-                    lp = o.lane_pre(T, i, *args_or) if o.lane_pre else True
-                    e = sym.ite(bools[i], M(T.bits), 0, T.bits)
-                    case.obligations.append({'kind': 'result', 'group': tag + ':result', 'lane': i,
-                                             'formula': b_and(pc, lp, sym.ne(got[i], e, T.bits)),
-                                             'desc': 'mask lane %d of %s' % (i, meta['name']), 'got': got[i], 'exp': e})
-                    case.obligations.append({'kind': 'ub:poison-returned', 'group': tag + ':ub', 'lane': i,
-                                             'formula': b_and(pc, lp, pp[i]), 'desc': 'mask lane %d is poison' % i})
-            else:
-                if rty.kind == 'vec':
-                    v, _ = sym.concat([(x, 1) for x, _ in f.ret])
-                    p = b_or(*[q for _, q in f.ret])
-                    k = rty.n
-                else:
-                    v, p = f.ret[0]
-                    k = rty.bits
-                for i in range(k):
-                    bit = sym.truth(sym.extract(v, i, i, k))
-                    e = bools[i] if i < T.n else False
-                    lp = (o.lane_pre(T, i, *args_or) if o.lane_pre else True) if i < T.n else True
-                    case.obligations.append({'kind': 'result', 'group': tag + ':result', 'lane': i,
-                                             'formula': b_and(pc, lp, b_not(sym.b_ite(bit, e, b_not(e)))),
-                                             'desc': 'mask bit %d of %s%s' % (i, meta['name'], '' if i < T.n else ' (unused high bit must stay clear)'),
-                                             'got': bit, 'exp': e})
-                case.obligations.append({'kind': 'ub:poison-returned', 'group': tag + ':ub', 'formula': b_and(pc, p), 'desc': 'mask is poison'})
-        elif o.ret in 'bU':
-            v, p = f.ret[0]
-            if o.ret == 'b':
-                got = sym.truth(sym.extract(v, 0, 0, rty.bits)) if rty.bits > 1 else sym.truth(v)
-                bad = b_not(sym.b_ite(got, exp, b_not(exp)))
-                if rty.bits > 1:
-                    bad = b_or(bad, sym.ne(sym.lshr(v, 1, rty.bits), 0, rty.bits))
-            else:
-                got = v
-                bad = sym.ne(v, exp, 32)
-            case.obligations.append({'kind': 'result', 'group': tag + ':result', 'lane': 0, 'formula': b_and(pc, bad),
-                                     'desc': 'result of %s' % meta['name'], 'got': got, 'exp': exp})
-            case.obligations.append({'kind': 'ub:poison-returned', 'group': tag + ':ub', 'formula': b_and(pc, p), 'desc': 'result is poison'})
+            continue
+        case.obligations += result_obligations(o, T, meta, rty, f.ret, exp, args_or, pc, tag)
     case.vacuity = b_or(*pcs) if pcs else False
     case.ret_type = rty
     case.finals = finals
     return case
+
+
+def result_obligations(o, T, meta, rty, ret, exp, args_or, pc, tag):
+    """obligations comparing the returned IR value with the oracle's expectation (works on concrete values too)"""
+    S = signed_of(T)
+    RT = {'v': T, 'w': S, 'x': S, 's': T}.get(o.ret)
+    out = []
+    if o.ret in 'vwxs':
+        n = 1 if o.ret == 's' else RT.n
+        got, pp = unpack_lanes(ret, rty, RT.bits, n)
+        explist = exp if isinstance(exp, list) and o.ret != 's' else [exp]
+        for i in range(n):
+            lp = o.lane_pre(T, i, *args_or) if o.lane_pre else True
+            out.append({'kind': 'result', 'group': tag + ':result', 'lane': i,
+                        'formula': b_and(pc, lp, b_not(pp[i]), mismatch(o.cmp, RT, got[i], explist[i], RT.bits)),
+                        'desc': 'lane %d of %s' % (i, meta['name']), 'got': got[i], 'exp': explist[i]})
+            out.append({'kind': 'ub:poison-returned', 'group': tag + ':ub', 'lane': i,
+                        'formula': b_and(pc, lp, pp[i]), 'desc': 'lane %d is poison' % i})
+    elif o.ret == 'm':
+        bools = exp
+        if rty.kind == 'vec' and rty.lbits() > 1:
+            got, pp = unpack_lanes(ret, rty, T.bits, T.n)
+            for i in range(T.n):
+                lp = o.lane_pre(T, i, *args_or) if o.lane_pre else True
+                e = sym.ite(bools[i], M(T.bits), 0, T.bits)
+                out.append({'kind': 'result', 'group': tag + ':result', 'lane': i,
+                            'formula': b_and(pc, lp, b_not(pp[i]), sym.ne(got[i], e, T.bits)),
+                            'desc': 'mask lane %d of %s' % (i, meta['name']), 'got': got[i], 'exp': e})
+                out.append({'kind': 'ub:poison-returned', 'group': tag + ':ub', 'lane': i,
+                            'formula': b_and(pc, lp, pp[i]), 'desc': 'mask lane %d is poison' % i})
+        else:
+            if rty.kind == 'vec':
+                v, _ = sym.concat([(x, 1) for x, _ in ret])
+                p = b_or(*[q for _, q in ret])
+                k = rty.n
+            else:
+                v, p = ret[0]
+                k = rty.bits
+            for i in range(k):
+                bit = sym.truth(sym.extract(v, i, i, k))
+                e = bools[i] if i < T.n else False
+                lp = (o.lane_pre(T, i, *args_or) if o.lane_pre else True) if i < T.n else True
+                out.append({'kind': 'result', 'group': tag + ':result', 'lane': i,
+                            'formula': b_and(pc, lp, b_not(p), b_not(sym.b_ite(bit, e, b_not(e)))),
+                            'desc': 'mask bit %d of %s%s' % (i, meta['name'], '' if i < T.n else ' (unused high bit must stay clear)'),
+                            'got': bit, 'exp': e})
+            out.append({'kind': 'ub:poison-returned', 'group': tag + ':ub', 'formula': b_and(pc, p), 'desc': 'mask is poison'})
+    elif o.ret in 'bU':
+        v, p = ret[0]
+        if o.ret == 'b':
+            got = sym.truth(sym.extract(v, 0, 0, rty.bits)) if rty.bits > 1 else sym.truth(v)
+            bad = b_not(sym.b_ite(got, exp, b_not(exp)))
+            if rty.bits > 1:
+                bad = b_or(bad, sym.ne(sym.lshr(v, 1, rty.bits), 0, rty.bits))
+        else:
+            got = v
+            bad = sym.ne(v, exp, 32)
+        out.append({'kind': 'result', 'group': tag + ':result', 'lane': 0, 'formula': b_and(pc, b_not(p), bad),
+                    'desc': 'result of %s' % meta['name'], 'got': got, 'exp': exp})
+        out.append({'kind': 'ub:poison-returned', 'group': tag + ':ub', 'formula': b_and(pc, p), 'desc': 'result is poison'})
+    return out
